@@ -1,5 +1,5 @@
 (* C08 — properties of the authorization tests and of the profile-store step model. *)
-From KM Require Import Base.Tactics Model.Auth Model.Authz.
+From KM Require Import Base.Bytes Base.Tactics Model.Auth Model.Authz.
 Import ListNotations.
 Open Scope N_scope.
 
@@ -24,15 +24,15 @@ Definition user_admin_op (o : op) : bool :=
   match o with ListUsers | AddUser | DeleteUser | NewBootstrapOTP => true | _ => false end.
 
 (* the statement: `actor`, holding a session of `level`, may act on `victim`'s data with `o` *)
-Definition may_act (adm : bool) (actor level victim : N) (o : op) : Prop :=
+Definition may_act (adm : bool) (actor : name) (level : N) (victim : name) (o : op) : Prop :=
   victim = actor \/
   (adm = true /\ (admin_plain_op o = true \/ hasb level bU2F = true)).
 
-Definition is_admin_by_config (c : cfg) (u : N) (dir : answer) : Prop :=
+Definition is_admin_by_config (c : cfg) (u : name) (dir : answer) : Prop :=
   In u (admin_users c) \/
   (exists gs g, dir = Some gs /\ In g gs /\ In g (admin_groups c)).
 
-Definition is_automation_identity (c : cfg) (id : N) (dir : answer) : Prop :=
+Definition is_automation_identity (c : cfg) (id : name) (dir : answer) : Prop :=
   In id (automation_users c) \/
   (exists gs g, dir = Some gs /\ In g gs /\ In g (automation_user_groups c)).
 
@@ -44,6 +44,16 @@ Proof.
   - intros [y [Hy He]]. apply N.eqb_eq in He. subst. exact Hy.
   - intros H. exists x. split; [exact H|apply N.eqb_refl].
 Qed.
+
+Lemma memn_In x l : memn x l = true <-> In x l.
+Proof.
+  unfold memn. rewrite existsb_exists. split.
+  - intros [y [Hy He]]. apply bs_eqb_eq in He. subst. exact Hy.
+  - intros H. exists x. split; [exact H|apply bs_eqb_refl].
+Qed.
+
+Lemma empty_spec t : empty t = true <-> t = [].
+Proof. destruct t; simpl; split; intros H; congruence. Qed.
 
 Lemma share_In gs l : existsb (fun g => mem g gs) l = true <-> exists g, In g gs /\ In g l.
 Proof.
@@ -57,10 +67,10 @@ Lemma raw_is_admin_true c u dir :
   raw_is_admin c u dir = Some true <-> is_admin_by_config c u dir.
 Proof.
   unfold raw_is_admin, is_admin_by_config.
-  destruct (mem u (admin_users c)) eqn:Em.
-  - split; [intros _; left; apply mem_In; exact Em|reflexivity].
+  destruct (memn u (admin_users c)) eqn:Em.
+  - split; [intros _; left; apply memn_In; exact Em|reflexivity].
   - assert (Hn : ~ In u (admin_users c)).
-    { intros H. apply mem_In in H. congruence. }
+    { intros H. apply memn_In in H. congruence. }
     destruct (admin_groups c) as [|g0 gr] eqn:Eg.
     + split; [discriminate|]. intros [H|[gs [g [_ [_ H]]]]]; [contradiction|destruct H].
     + rewrite <- Eg. destruct dir as [gs|].
@@ -76,10 +86,10 @@ Lemma is_automation_user_true c id dir :
   is_automation_user c id dir = Some true <-> is_automation_identity c id dir.
 Proof.
   unfold is_automation_user, is_automation_identity.
-  destruct (mem id (automation_users c)) eqn:Em.
-  - split; [intros _; left; apply mem_In; exact Em|reflexivity].
+  destruct (memn id (automation_users c)) eqn:Em.
+  - split; [intros _; left; apply memn_In; exact Em|reflexivity].
   - assert (Hn : ~ In id (automation_users c)).
-    { intros H. apply mem_In in H. congruence. }
+    { intros H. apply memn_In in H. congruence. }
     destruct dir as [gs|].
     + split.
       * intros H. injection H as H. apply share_In in H. destruct H as [g [Hg Hl]].
@@ -103,33 +113,33 @@ Proof.
   intros Hrc H. unfold may_act.
   destruct o; simpl in *; try congruence.
   - (* ViewProfile *)
-    destruct (target =? 0); [left; reflexivity|].
+    destruct (empty target); [left; reflexivity|].
     destruct adm; simpl in H; [right; auto|discriminate].
   - (* ManageU2F *)
     destruct (admin_and_u2f adm level) eqn:Ea; simpl in H.
     + apply admin_and_u2f_true in Ea. right. tauto.
-    + destruct (target =? actor) eqn:Et; simpl in H; [|discriminate].
-      apply N.eqb_eq in Et. left; exact Et.
+    + destruct (bs_eqb target actor) eqn:Et; simpl in H; [|discriminate].
+      apply bs_eqb_eq in Et. left; exact Et.
   - destruct (admin_and_u2f adm level) eqn:Ea; simpl in H.
     + apply admin_and_u2f_true in Ea. right. tauto.
-    + destruct (target =? actor) eqn:Et; simpl in H; [|discriminate].
-      apply N.eqb_eq in Et. left; exact Et.
+    + destruct (bs_eqb target actor) eqn:Et; simpl in H; [|discriminate].
+      apply bs_eqb_eq in Et. left; exact Et.
   - destruct (admin_and_u2f adm level) eqn:Ea; simpl in H.
     + apply admin_and_u2f_true in Ea. right. tauto.
-    + destruct (actor =? target) eqn:Et; simpl in H; [|discriminate].
-      apply N.eqb_eq in Et. left; auto.
+    + destruct (bs_eqb actor target) eqn:Et; simpl in H; [|discriminate].
+      apply bs_eqb_eq in Et. left; auto.
   - destruct (admin_and_u2f adm level) eqn:Ea; simpl in H.
     + apply admin_and_u2f_true in Ea. right. tauto.
-    + destruct (actor =? target) eqn:Et; simpl in H; [|discriminate].
-      apply N.eqb_eq in Et. left; auto.
+    + destruct (bs_eqb actor target) eqn:Et; simpl in H; [|discriminate].
+      apply bs_eqb_eq in Et. left; auto.
   - destruct (admin_and_u2f adm level) eqn:Ea; simpl in H.
     + apply admin_and_u2f_true in Ea. right. tauto.
-    + destruct (actor =? target) eqn:Et; simpl in H; [|discriminate].
-      apply N.eqb_eq in Et. left; auto.
+    + destruct (bs_eqb actor target) eqn:Et; simpl in H; [|discriminate].
+      apply bs_eqb_eq in Et. left; auto.
   - destruct (admin_and_u2f adm level) eqn:Ea; simpl in H.
     + apply admin_and_u2f_true in Ea. right. tauto.
-    + destruct (actor =? target) eqn:Et; simpl in H; [|discriminate].
-      apply N.eqb_eq in Et. left; auto.
+    + destruct (bs_eqb actor target) eqn:Et; simpl in H; [|discriminate].
+      apply bs_eqb_eq in Et. left; auto.
   - left; reflexivity.
   - left; reflexivity.
   - destruct adm; simpl in H; [right; auto|discriminate].
@@ -140,12 +150,12 @@ Qed.
 
 (* listing, adding, deleting users, bootstrap OTPs, and naming a user in /profile/<user> *)
 Theorem admin_only c adm actor level target o :
-  user_admin_op o = true \/ (o = ViewProfile /\ target <> 0) ->
+  user_admin_op o = true \/ (o = ViewProfile /\ target <> []) ->
   authorize c adm actor level target o = Allow -> adm = true.
 Proof.
   intros [Ho|[-> Ht]] H.
   - destruct o; simpl in Ho; try discriminate; simpl in H; destruct adm; auto; discriminate.
-  - simpl in H. apply N.eqb_neq in Ht. rewrite Ht in H. destruct adm; auto; discriminate.
+  - simpl in H. destruct target as [|x t]; [contradiction|]. simpl in H. destruct adm; auto; discriminate.
 Qed.
 
 (* another user's tokens: administrator AND hardware-token factor on the session *)
@@ -168,8 +178,8 @@ Theorem rolecert_authorized c adm actor level target :
   adm = true \/ In actor (automation_admins c).
 Proof.
   simpl. unfold is_automation_admin. destruct adm; [left; reflexivity|]. simpl.
-  destruct (mem actor (automation_admins c)) eqn:Em; simpl; [|discriminate].
-  intros _. right. apply mem_In. exact Em.
+  destruct (memn actor (automation_admins c)) eqn:Em; simpl; [|discriminate].
+  intros _. right. apply memn_In. exact Em.
 Qed.
 
 (* ---- the store ---- *)
@@ -177,16 +187,16 @@ Qed.
 Lemma find_remove_other s t u : u <> t -> find (remove s t) u = find s u.
 Proof.
   intros Hne. induction s as [|[k p] r IH]; [reflexivity|]. simpl.
-  destruct (N.eqb k t) eqn:Ekt.
-  - apply N.eqb_eq in Ekt. subst k.
-    destruct (N.eqb t u) eqn:Etu; [apply N.eqb_eq in Etu; congruence|exact IH].
-  - simpl. destruct (N.eqb k u); [reflexivity|exact IH].
+  destruct (bs_eqb k t) eqn:Ekt.
+  - apply bs_eqb_eq in Ekt. subst k.
+    destruct (bs_eqb t u) eqn:Etu; [apply bs_eqb_eq in Etu; congruence|exact IH].
+  - simpl. destruct (bs_eqb k u); [reflexivity|exact IH].
 Qed.
 
 Lemma find_save_other s t p u : u <> t -> find (save s t p) u = find s u.
 Proof.
   intros Hne. unfold save. simpl.
-  destruct (N.eqb t u) eqn:E; [apply N.eqb_eq in E; congruence|].
+  destruct (bs_eqb t u) eqn:E; [apply bs_eqb_eq in E; congruence|].
   apply find_remove_other. exact Hne.
 Qed.
 
@@ -224,7 +234,7 @@ Qed.
 Theorem not_ok_untouched c s r : snd (step c s r) <> ROk -> fst (step c s r) = s.
 Proof.
   unfold step.
-  destruct (authenticate (required_for c (r_op r)) (r_cred r)) as [[actor level]|]; [|reflexivity].
+  destruct (authenticate (required_for c (r_op r)) (resolve c (r_cred r))) as [[actor level]|]; [|reflexivity].
   destruct (post_before_authz (r_op r) && negb (r_post r)); [reflexivity|].
   destruct (authorize c (r_adm r) actor level (r_target r) (r_op r)); [|reflexivity].
   destruct (post_after_authz (r_op r) && negb (r_post r)); [reflexivity|].
@@ -235,12 +245,12 @@ Qed.
 
 (* an unauthenticated request is refused *)
 Theorem unauthenticated_denied c s r :
-  authenticate (required_for c (r_op r)) (r_cred r) = None -> step c s r = (s, RDenied).
+  authenticate (required_for c (r_op r)) (resolve c (r_cred r)) = None -> step c s r = (s, RDenied).
 Proof. intros H. unfold step. rewrite H. reflexivity. Qed.
 
 (* a request the handler's test refuses changes nothing, and the answer is not a success *)
 Theorem deny_untouched c s r actor level :
-  authenticate (required_for c (r_op r)) (r_cred r) = Some (actor, level) ->
+  authenticate (required_for c (r_op r)) (resolve c (r_cred r)) = Some (actor, level) ->
   authorize c (r_adm r) actor level (r_target r) (r_op r) = Deny ->
   fst (step c s r) = s /\ snd (step c s r) <> ROk.
 Proof.
@@ -253,11 +263,11 @@ Qed.
 Theorem ok_authorized c s r :
   snd (step c s r) = ROk ->
   exists actor level,
-    authenticate (required_for c (r_op r)) (r_cred r) = Some (actor, level) /\
+    authenticate (required_for c (r_op r)) (resolve c (r_cred r)) = Some (actor, level) /\
     authorize c (r_adm r) actor level (r_target r) (r_op r) = Allow.
 Proof.
   unfold step.
-  destruct (authenticate (required_for c (r_op r)) (r_cred r)) as [[actor level]|]; [|discriminate].
+  destruct (authenticate (required_for c (r_op r)) (resolve c (r_cred r))) as [[actor level]|]; [|discriminate].
   destruct (post_before_authz (r_op r) && negb (r_post r)); [discriminate|].
   destruct (authorize c (r_adm r) actor level (r_target r) (r_op r)) eqn:Ea; [|discriminate].
   intros _. exists actor, level. auto.
@@ -267,16 +277,16 @@ Qed.
 Lemma step_change c s r v :
   find (fst (step c s r)) v = find s v \/
   (exists actor level,
-     authenticate (required_for c (r_op r)) (r_cred r) = Some (actor, level) /\
+     authenticate (required_for c (r_op r)) (resolve c (r_cred r)) = Some (actor, level) /\
      authorize c (r_adm r) actor level (r_target r) (r_op r) = Allow /\
      v = effective_target actor (r_target r) (r_op r) /\ r_op r <> RoleCert).
 Proof.
   unfold step.
-  destruct (authenticate (required_for c (r_op r)) (r_cred r)) as [[actor level]|]; [|left; reflexivity].
+  destruct (authenticate (required_for c (r_op r)) (resolve c (r_cred r))) as [[actor level]|]; [|left; reflexivity].
   destruct (post_before_authz (r_op r) && negb (r_post r)); [left; reflexivity|].
   destruct (authorize c (r_adm r) actor level (r_target r) (r_op r)) eqn:Ea; [|left; reflexivity].
   destruct (post_after_authz (r_op r) && negb (r_post r)); [left; reflexivity|].
-  destruct (N.eq_dec v (effective_target actor (r_target r) (r_op r))) as [Hv|Hv].
+  destruct (list_eq_dec N.eq_dec v (effective_target actor (r_target r) (r_op r))) as [Hv|Hv].
   - destruct (r_op r) eqn:Eo;
       try (right; exists actor, level; repeat split; auto; discriminate).
     left. rewrite perform_rolecert by exact Eo. reflexivity.
@@ -284,7 +294,7 @@ Proof.
 Qed.
 
 Theorem only_target_changes c s r actor level u :
-  authenticate (required_for c (r_op r)) (r_cred r) = Some (actor, level) ->
+  authenticate (required_for c (r_op r)) (resolve c (r_cred r)) = Some (actor, level) ->
   u <> effective_target actor (r_target r) (r_op r) ->
   find (fst (step c s r)) u = find s u.
 Proof.
@@ -299,7 +309,7 @@ Theorem history_sound c : forall reqs s v,
   find (run c s reqs) v <> find s v ->
   exists r actor level,
     In r reqs /\
-    authenticate (required_for c (r_op r)) (r_cred r) = Some (actor, level) /\
+    authenticate (required_for c (r_op r)) (resolve c (r_cred r)) = Some (actor, level) /\
     may_act (r_adm r) actor level v (r_op r).
 Proof.
   induction reqs as [|r rest IH]; intros s v Hd; [exfalso; apply Hd; reflexivity|].
@@ -315,7 +325,7 @@ Qed.
 Theorem rolecert_sound c s r :
   r_op r = RoleCert -> snd (step c s r) = ROk ->
   exists actor level,
-    authenticate (required_for c RoleCert) (r_cred r) = Some (actor, level) /\
+    authenticate (required_for c RoleCert) (resolve c (r_cred r)) = Some (actor, level) /\
     (r_adm r = true \/ In actor (automation_admins c)) /\
     is_automation_identity c (r_target r) (r_dir_target r) /\
     fst (step c s r) = s.
@@ -328,7 +338,7 @@ Proof.
   simpl post_before_authz. simpl andb. rewrite Hal.
   destruct (r_post r); [|simpl; discriminate]. simpl negb. cbv iota.
   unfold perform. rewrite Ho. simpl effective_target.
-  destruct (r_target r =? 0); [simpl; discriminate|].
+  destruct (empty (r_target r)); [simpl; discriminate|].
   destruct (is_automation_user c (r_target r) (r_dir_target r)) as [[|]|] eqn:Eu;
     try (simpl; discriminate).
   intros _. split; [apply is_automation_user_true; exact Eu|].
@@ -337,18 +347,22 @@ Qed.
 
 (* ---- the two credential shapes are treated by Model/Auth.v's checkAuth in the same way ---- *)
 
-Definition good_token (u level : N) (now : Z) : token :=
+(* Model/Auth.v keeps users abstract (numbers): [uid] is any numbering of the names *)
+Section Numbering.
+Variable uid : name -> N.
+
+Definition good_token (u : name) (level : N) (now : Z) : token :=
   {| t_signer_trusted := true; t_alg_allowed := true; t_tampered := false; t_iss_ok := true;
      t_aud_ok := true; t_kind := 0; t_nbf := now; t_exp := now; t_iat := now;
-     t_sub := u; t_level := level |}.
+     t_sub := uid u; t_level := level |}.
 
-Definition good_chain (u : N) (now : Z) : tlsinfo :=
-  {| c_chain2 := true; c_issuer := MainCA; c_issuer_key_trusted := true; c_cn := u;
+Definition good_chain (u : name) (now : Z) : tlsinfo :=
+  {| c_chain2 := true; c_issuer := MainCA; c_issuer_key_trusted := true; c_cn := uid u;
      c_denied := false; c_not_before := now; c_ip_error := false; c_ip_valid := false;
      c_automation := false; c_revoked := false |}.
 
-Definition role_chain (u : N) (now : Z) : tlsinfo :=
-  {| c_chain2 := true; c_issuer := RoleCA; c_issuer_key_trusted := true; c_cn := u;
+Definition role_chain (u : name) (now : Z) : tlsinfo :=
+  {| c_chain2 := true; c_issuer := RoleCA; c_issuer_key_trusted := true; c_cn := uid u;
      c_denied := false; c_not_before := now; c_ip_error := false; c_ip_valid := true;
      c_automation := true; c_revoked := false |}.
 
@@ -361,16 +375,17 @@ Definition request_of (cr : cred) (now : Z) : Auth.request :=
                    Auth.r_cred := Auth.NoCred |}
   | IPCert u => {| r_get := true; r_origin := NoOrigin; r_tls := Some (role_chain u now);
                    Auth.r_cred := Auth.NoCred |}
+  | Login _ _ => {| r_get := true; r_origin := NoOrigin; r_tls := None; Auth.r_cred := Auth.NoCred |}
   end.
 
 Lemma authenticate_is_check_auth required cr now :
   hasb required bIPCert = false ->
   match authenticate required cr with
-  | Some (u, l) => exists iat, check_auth now true required (request_of cr now) = Admit u l iat
+  | Some (u, l) => exists iat, check_auth now true required (request_of cr now) = Admit (uid u) l iat
   | None => exists code, check_auth now true required (request_of cr now) = Refuse code
   end.
 Proof.
-  intros Hip. destruct cr as [|u l|u|u]; simpl.
+  intros Hip. destruct cr as [|u l|u|u|u l]; simpl.
   - eexists; reflexivity.
   - unfold check_auth. simpl. unfold token_ok. simpl.
     rewrite Z.leb_refl, Z.ltb_irrefl. simpl.
@@ -390,4 +405,6 @@ Proof.
       rewrite Hor. eexists; reflexivity.
   - unfold check_auth. cbn [request_of r_get r_origin r_tls Auth.r_cred authenticate].
     rewrite Hip. destruct (hasb required (N.lor bIPCert bKMX509)); eexists; reflexivity.
+  - eexists; reflexivity.
 Qed.
+End Numbering.
